@@ -52,6 +52,10 @@ func main() {
 		debugGlobals(*repo)
 		return
 	}
+	if *dbg == "deadparams" {
+		debugDeadParams(*repo)
+		return
+	}
 	if *dbg == "loops" {
 		debugLoops(*repo)
 		return
